@@ -423,6 +423,7 @@ impl<T: Clone + Eq + Debug + Default> WrappedBlock<T> {
 
                 // Write any remaining whitespace
                 while self.wslen > 0 {
+                    verif_tick!(WsFill);
                     let to_copy = self.wslen.min(self.width);
                     self.line.push_ws(to_copy, self.spacetag.as_ref().unwrap());
                     if to_copy == self.width {
@@ -457,6 +458,7 @@ impl<T: Clone + Eq + Debug + Default> WrappedBlock<T> {
                 let mut bpos = 0; // Byte position of already-copied pieces
                                   //
                 while w - wpos > lineleft {
+                    verif_tick!(HardWrap);
                     let mut split_idx = 0;
                     for (idx, c) in piece.s[bpos..].char_indices() {
                         let c_w = UnicodeWidthChar::width(c).unwrap();
@@ -469,6 +471,7 @@ impl<T: Clone + Eq + Debug + Default> WrappedBlock<T> {
                             // only have a width of 1.
                             if idx == 0 && self.line.width() == 0 {
                                 if self.allow_overflow {
+                                    verif_tick!(ProbeOverflowWrap);
                                     split_idx = c.len_utf8();
                                     wpos += c_w;
                                     break;
@@ -582,6 +585,7 @@ impl<T: Clone + Eq + Debug + Default> WrappedBlock<T> {
         //     and continue.
         let mut tag = if self.pre_wrapped { wrap_tag } else { main_tag };
         for c in text.chars() {
+            verif_tick!(AddTextChar);
             html_trace!(
                 "c = {:?} word={:?} linelen={} wslen={} line={:?}",
                 c,
@@ -613,6 +617,7 @@ impl<T: Clone + Eq + Debug + Default> WrappedBlock<T> {
                             let mut pos = self.line.len + self.wslen;
                             let mut at_least_one_space = false;
                             while pos % tab_stop != 0 || !at_least_one_space {
+                                verif_tick!(TabStop);
                                 if pos >= self.width {
                                     self.flush_line();
                                     pos = 0;
@@ -852,6 +857,7 @@ impl<T: Clone> BorderHoriz<T> {
     fn stretch_to(&mut self, width: usize) {
         use self::BorderSegHoriz::*;
         while width > self.segments.len() {
+            verif_tick!(BorderStretch);
             self.segments.push(Straight);
         }
     }
@@ -1150,6 +1156,7 @@ impl<D: TextDecorator> SubRenderer<D> {
         if !self.pending_frags.is_empty() {
             match line {
                 RenderLine::Text(tagged_line) => {
+                    verif_tick!(ProbeFragAttach);
                     let mut tl = TaggedLine::new();
                     for frag in std::mem::take(&mut self.pending_frags) {
                         tl.push(frag);
@@ -1233,6 +1240,7 @@ impl<D: TextDecorator> SubRenderer<D> {
                     // split the string and start a new line
                     let mut buf = String::new();
                     for c in s.chars() {
+                        verif_tick!(FmtLinksChar);
                         let c_width = UnicodeWidthChar::width(c).unwrap_or(0);
                         if pos + c_width > self.width {
                             if !buf.is_empty() {
